@@ -98,9 +98,12 @@ class Listener:
         self.closed = False
         self.fd = net.alloc_fd(self)
         self.cid = 0
+        # as a supervisor hands a listening socket over (fd://N, socket activation): in blocking mode, unless the worker
+        # itself says otherwise
+        self.blocking = True
 
     def setblocking(self, flag):
-        pass
+        self.blocking = bool(flag)
 
     def getsockname(self):
         return ("127.0.0.1", 8000)
@@ -113,6 +116,11 @@ class Listener:
         if self.closed:
             raise OSError(errno.EBADF, "closed listener")
         if not self.net.backlog:
+            if self.blocking:
+                # (another worker of the pool took the connection): the main thread sleeps in accept() until the next
+                # client connects, its kept-alive connections and its heartbeat wait with it
+                from drivers import simos_threads as sthr
+                raise sthr.SimDeadlock("accept() on a listener left in blocking mode, nothing queued")
             raise BlockingIOError(errno.EAGAIN, "no connection")
         c = self.net.backlog.pop(0)
         s = self.net.conns[c]
